@@ -184,6 +184,11 @@ def generate(rng: random.Random, cons: dict) -> dict:
     # a second, independently edited solution in the same process (state kept on a class
     # instead of the instance shows up as cross-talk between the two)
     w["sibling"] = rng.random() < 0.3
+    # a client that hands numpy scalars to the actions (ids read from a label array, times
+    # and track ids from array columns) instead of Python ints
+    w["np_client"] = rng.random() < 0.2
+    # non-default attribute names for the two id features (tracklet_attr= / lineage_attr=)
+    w["id_keys"] = rng.choice(["default"] * 4 + ["renamed"])
     return w
 
 
@@ -215,6 +220,9 @@ def build(w: dict):
     seg = np.zeros(shape, dtype=np.dtype(w["dtype"])) if w["seg"] else None
     pos_mode = w["pos_mode"]
     ax = axis_names(ndim)
+    renamed = w.get("id_keys") == "renamed"
+    trk_key, lin_key = ("tracklet", "lin") if renamed else ("track_id", "lineage_id")
+    idk = {"tracklet_attr": trk_key, "lineage_attr": lin_key} if renamed else {}
     for k in sorted(w["nodes"], key=int):
         nd = w["nodes"][k]
         n = int(k)
@@ -231,8 +239,8 @@ def build(w: dict):
             else:
                 attrs["pos"] = list(nd["pos"])
         if w["ids"] in ("adopted", "from_tracks+ids"):
-            attrs["track_id"] = w["adopt"]["track"][k]
-            attrs["lineage_id"] = w["adopt"]["lineage"][k]
+            attrs[trk_key] = w["adopt"]["track"][k]
+            attrs[lin_key] = w["adopt"]["lineage"][k]
         if k in w.get("score", {}):
             attrs["score"] = w["score"][k]
         g.add_node(n, **attrs)
@@ -249,11 +257,11 @@ def build(w: dict):
     if w["ids"].startswith("from_tracks"):
         from funtracks.data_model import Tracks
 
-        plain = Tracks(g, segmentation=seg, time_attr=tkey, pos_attr=pos_attr, scale=scale, ndim=ndim)
+        plain = Tracks(g, segmentation=seg, time_attr=tkey, pos_attr=pos_attr, scale=scale, ndim=ndim, **idk)
         tracks = SolutionTracks.from_tracks(plain)
     else:
         tracks = SolutionTracks(
-            g, segmentation=seg, time_attr=tkey, pos_attr=pos_attr, scale=scale, ndim=ndim
+            g, segmentation=seg, time_attr=tkey, pos_attr=pos_attr, scale=scale, ndim=ndim, **idk
         )
     register_custom(tracks)
     if w["enable"]:
